@@ -142,7 +142,7 @@ func genC10(t *rapid.T) *C10Case {
 func checkC10(c *C10Case) *Violation {
 	st := stat("C10")
 	src := c10Src(c)
-	res := Compile(src, Opts{Optimize: true, Switches: c.Switches})
+	res := CompileMaybeLM(src, Opts{Optimize: true, Switches: c.Switches})
 	if res.Panic != nil || res.Budget {
 		return viol("crash", "%s\n--- source\n%s", res.Describe(), src)
 	}
